@@ -22,7 +22,8 @@ RULE = ("random automata / PDAs / FSTs with JSON-representable state and symbol 
         "whose boxes are compared, by the verified equivalence oracle, with the union of the alternatives of each "
         "head. Non-trivial: machine with >=2 states and >=2 transitions / grammar with >=2 productions.")
 EXPLANATION = 'Round trips are decided structurally (canonical form of the re-imported object equals that of the original) and, for grammars and recursive automata, by the verified membership / equivalence oracles; the networkx graph container and the json module are exercised, not modelled. The token-level text codec of grammars (Variable.to_text, Terminal.to_text, the component classification of CFG._read_line) is modelled in Lean (Pfl/Model/Codec.lean), proved to round-trip every plain token (read_varToText, read_terToText) and compared with the implementation on random ASCII tokens.'
-THEOREMS = ["Pfl.LabelCodec.readPdaLabel_pdaLabel",
+THEOREMS = ["Pfl.Rx.box_lang",
+            "Pfl.LabelCodec.readPdaLabel_pdaLabel",
             "Pfl.LabelCodec.readFstLabel_fstLabel",
             "Pfl.LabelCodec.readPdaLabel_pdaLabel_clear",
             "Pfl.LabelCodec.readFstLabel_fstLabel_clear",
